@@ -279,6 +279,8 @@ def main(argv=None):
     ap.add_argument('--first', type=int, default=0, help='index of first run (to continue a sweep)')
     ap.add_argument('--no-evidence', action='store_true')
     ap.add_argument('--no-shrink', action='store_true')
+    ap.add_argument('--property', help='judge this property instead of the check module\'s own (triage aid)')
+    ap.add_argument('--survey', action='store_true', help='explore the whole budget, list every violation signature of every property, no shrinking, exit 0')
     ap.add_argument('--log', help='with --replay: write the repository log of the run to this file')
     ap.add_argument('--verbose', '-v', action='store_true')
     ap.add_argument('--digests', help='write {index: [digest, abstract, vtime, nviol]} of every run to this file (determinism selftest)')
@@ -286,7 +288,7 @@ def main(argv=None):
 
     sys.path.insert(0, VERIF)
     spec = importlib.import_module('checks.' + args.check)
-    prop = spec.PROPERTY
+    prop = args.property or spec.PROPERTY
     modname = 'checks.' + args.check
     tier = args.tier if args.tier in ('quick', 'thorough') else 'quick'
     base_seed = args.seed if args.seed is not None else int(os.environ.get('VERIF_SEED', '0') or 0)
@@ -338,6 +340,7 @@ def main(argv=None):
     counters = {}
     samples = []
     all_digests = {}
+    survey = {}
     viol_groups = {}  # sig -> list of (job, msg, violation)
     opts = dict(tiercfg.get('opts') or {})
 
@@ -367,6 +370,10 @@ def main(argv=None):
             samples.append({'seed': job['seed'], 'index': job['index'], 'sample': r['sample']})
         for v in viols_of(msg, prop):
             viol_groups.setdefault(v.get('sig'), []).append((job, msg, v))
+        if args.survey:
+            for v in r.get('violations', []):
+                survey.setdefault((v.get('property'), v.get('sig')), []).append(job['index'])
+            return time.time() - t0 > budget
         if args.verbose:
             log('run %d seed=%d wall=%.1fs vtime=%.0f viol=%s' % (job['index'], job['seed'], msg.get('wall', 0),
                                                                   r.get('vtime', 0), [v.get('sig') for v in r.get('violations', [])]))
@@ -381,6 +388,14 @@ def main(argv=None):
     try:
         pool.run(jobs(), on_result)
         t_search = time.time() - t0
+        if args.survey:
+            for (p_, sig), idxs in sorted(survey.items(), key=lambda kv: (str(kv[0][0]), -len(kv[1]))):
+                log('SURVEY %s %-60s %5d runs  e.g. index %s' % (p_, sig, len(idxs), idxs[:6]))
+            log('survey: runs=%d wall=%.1fs harness_errors=%d counters=%s' % (
+                stats['runs'], t_search, len(stats['harness_errors']), json.dumps({k: v for k, v in sorted(counters.items()) if k.startswith('probe.') or k.startswith('stop.') or k == 'invalid_program'})))
+            for he in stats['harness_errors'][:3]:
+                log('HARNESS-ERROR seed=%s index=%s %s' % (he['seed'], he['index'], he['error'][-1500:]))
+            return 0
         new_viol = []
         known_hit = {}
         for sig, lst in sorted(viol_groups.items(), key=lambda kv: str(kv[0])):
@@ -411,7 +426,7 @@ def main(argv=None):
             rp = {'property': prop, 'check': args.check, 'seed': job['seed'], 'index': job['index'],
                   'verif_seed': base_seed, 'case': case, 'schedule': schedule, 'opts': opts,
                   'digest': fr.get('digest'), 'violation': (fv[0] if fv else v),
-                  'events': fr.get('events', [])[-400:], 'original_case': job['case']}
+                  'events': fr.get('events', []), 'original_case': job['case']}
             path = os.path.join(VERIF, 'replays', '%s-%s-%d.json' % (prop, args.check, job['seed']))
             write_json(path, rp)
             replays.append(path)
